@@ -5,8 +5,8 @@
    (tied to /repo by the correspondence check); [flatten] yields the abstract machine of
    Model/Flat.v whose [trigger]/[can_trigger] define behaviour. *)
 From Coq Require Import List Arith Bool.
-From M Require Import Base Flat Build.
-From P Require Import BuildP.
+From M Require Import Base Flat Hsm Build HBuild.
+From P Require Import BuildP HBuildP.
 Import ListNotations.
 
 (* ---- callbacks: by name, by reference, by dotted path, as a property; single value or list:
@@ -178,8 +178,8 @@ Print Assumptions C13_remove_inverse.
 (* ---- equal (equivalent) machines behave equally on every call and every history *)
 Theorem C13_behaviour : forall b1 b2, beq b1 b2 ->
   forall ev c e p cur,
-    trigger (flatten b1) ev c e p cur = trigger (flatten b2) ev c e p cur /\
-    can_trigger (flatten b1) ev c e p cur = can_trigger (flatten b2) ev c e p cur.
+    Flat.trigger (flatten b1) ev c e p cur = Flat.trigger (flatten b2) ev c e p cur /\
+    Flat.can_trigger (flatten b1) ev c e p cur = Flat.can_trigger (flatten b2) ev c e p cur.
 Proof. exact behaviour. Qed.
 Print Assumptions C13_behaviour.
 
@@ -239,3 +239,133 @@ Example C13_remove_enum_example :
   exec (go01 ++ [RemoveTransition 2 (FList [REnum 0]) FWild]) (empty h0) =
   exec (go01 ++ [RemoveTransition 2 (FList [RName 0]) FWild]) (empty h0).
 Proof. vm_compute. reflexivity. Qed.
+
+(* ======================================================================================
+   Hierarchical machines (Model/HBuild.v: HierarchicalMachine.add_states with separator-
+   joined names / nested dicts / machines embedded as children with remap, add_transition(s)
+   globally and in a dict's 'transitions', remove_transition).  [hexec] builds the state
+   trees and scope events of Model/Hsm.v; the laws hold at EVERY scope ([add_form] on any
+   scope) and inside every script (any prefix, any suffix).
+   ====================================================================================== *)
+
+(* ---- (1) the children of a nested dict under the key 'children' or 'states', at any depth *)
+Theorem C13_h_children_states : forall dflt k f sc, add_form dflt (rekey k f) sc = add_form dflt f sc.
+Proof. exact children_states. Qed.
+Print Assumptions C13_h_children_states.
+
+Theorem C13_h_children_states_script : forall pre suf k f b,
+  hexec (pre ++ HAddStates [rekey k f] :: suf) b = hexec (pre ++ HAddStates [f] :: suf) b.
+Proof. exact script_children_states. Qed.
+Print Assumptions C13_h_children_states_script.
+
+(* ---- (2) a state tree as nested dict = its root, then its descendants as separator-joined
+   names created one by one in pre-order (sibling names distinct, the root new in its scope,
+   no explicit ignore_invalid_triggers=None) *)
+Theorem C13_h_nested_dict_joined_names : forall dflt t, wf_pt t = true ->
+  forall ds evs, has_child ds (pt_name t) = false ->
+  add_forms dflt (names_of t) (ds, evs) = add_form dflt (dict_of t) (ds, evs).
+Proof. exact names_eq_dict. Qed.
+Print Assumptions C13_h_nested_dict_joined_names.
+
+Theorem C13_h_nested_dict_joined_names_script : forall pre suf t b, wf_pt t = true ->
+  (forall b1, hexec pre b = (b1, None) -> has_child (hb_states b1) (pt_name t) = false) ->
+  hexec (pre ++ HAddStates [dict_of t] :: suf) b =
+  hexec (pre ++ map (fun f => HAddStates [f]) (names_of t) ++ suf) b.
+Proof. exact script_names_dict. Qed.
+Print Assumptions C13_h_nested_dict_joined_names_script.
+
+Definition ex_tree : ptree :=
+  PT 1 (mkHA [7] [] [] false None [2])
+     [PT 2 (mkHA [] [8] [] true (Some (Some true)) []) [PT 4 (mkHA [] [] [9] false None []) []];
+      PT 3 (mkHA [] [] [] false None []) []].
+Example C13_h_names_example :
+  wf_pt ex_tree = true /\
+  names_of ex_tree = [HName [1] (mkHA [7] [] [] false None [2]);
+                      HName [1; 2] (mkHA [] [8] [] true (Some (Some true)) []);
+                      HName [1; 2; 4] (mkHA [] [] [9] false None []);
+                      HName [1; 3] (mkHA [] [] [] false None [])].
+Proof. vm_compute. split; reflexivity. Qed.
+
+(* ---- (3) another machine embedded as children: without remap it is the nested dict of its
+   states with its global transitions as the dict's 'transitions' (the embedding state takes
+   over the machine's initial state unless it has its own) *)
+Theorem C13_h_embedded_machine : forall dflt n a s sc, wf_sub s = true ->
+  add_form dflt (HEmbed n a s []) sc =
+  add_form dflt (HDict n (with_initial a (sub_initial s)) true (map form_of (sub_states s))
+                       (flat_events (sub_events s))) sc.
+Proof. exact embed_is_dict. Qed.
+Print Assumptions C13_h_embedded_machine.
+
+Theorem C13_h_embedded_machine_script : forall pre suf n a s b, wf_sub s = true ->
+  hexec (pre ++ HAddStates [HEmbed n a s []] :: suf) b =
+  hexec (pre ++ HAddStates [HDict n (with_initial a (sub_initial s)) true (map form_of (sub_states s))
+                                  (flat_events (sub_events s))] :: suf) b.
+Proof. exact script_embed_dict. Qed.
+Print Assumptions C13_h_embedded_machine_script.
+
+(* the nested dict written from a state tree builds exactly that tree *)
+Theorem C13_h_dict_round_trip : forall dflt d, wfr_d d = true ->
+  forall ds es, add_form dflt (form_of d) (ds, es) = ((set_child d ds, es), None).
+Proof. exact build_form_of. Qed.
+Print Assumptions C13_h_dict_round_trip.
+
+(* with remap: the remapped states are absent, transitions from them are gone, transitions
+   into them are declared one scope up from <n>_<source> to the remap target (same callbacks),
+   everything else is the explicit nested definition *)
+Theorem C13_h_embedded_remap : forall dflt n a s remap sc, wf_sub s = true ->
+  add_form dflt (HEmbed n a s remap) sc =
+  (let ks := kept_sub remap s in
+   let sc1 := fst (add_form dflt (HDict n (with_initial a (sub_initial s)) true (map form_of (sub_states ks))
+                                        (flat_events (sub_events ks))) sc) in
+   ((fst sc1, add_hts (moved_events n remap (sub_events s)) (snd sc1)), None)).
+Proof. exact embed_remap_explicit. Qed.
+Print Assumptions C13_h_embedded_remap.
+
+Theorem C13_h_embedded_remap_script : forall pre suf n a s remap b, wf_sub s = true ->
+  hexec (pre ++ HAddStates [HEmbed n a s remap] :: suf) b =
+  hexec (pre ++ [HAddStates [HEmbed n a (kept_sub remap s) []];
+                 HAddTransitions (moved_events n remap (sub_events s))] ++ suf) b.
+Proof. exact script_embed_remap. Qed.
+Print Assumptions C13_h_embedded_remap_script.
+
+(* ---- (4) add then remove = never added.  For every script that does not otherwise remove
+   the trigger and every start machine: the script with every mention of the trigger
+   stripped (global add_transition(s), 'transitions' of nested dicts at any depth, machines
+   embedded as children) builds the machine of the full script with the trigger dropped
+   from every scope, and raises iff the full script does ... *)
+Theorem C13_h_never_mentioned : forall trig s b, forallb (fun o => negb (removes trig o)) s = true ->
+  hexec (map (strip_op trig) s) (drop_b trig b) = (drop_b trig (fst (hexec s b)), snd (hexec s b)).
+Proof. exact drop_exec. Qed.
+Print Assumptions C13_h_never_mentioned.
+
+(* ... and remove_transition(trigger) is that dropping (event names are unique in every
+   scope of every machine a script builds: [uk_exec]) *)
+Theorem C13_h_remove_never_added : forall trig s b,
+  forallb wf_op s = true -> forallb (fun o => negb (removes trig o)) s = true ->
+  uk_scope (hb_scope b) = true -> snd (hexec s b) = None ->
+  hexec (s ++ [HRemove trig [] []]) b = hexec (map (strip_op trig) s) (drop_b trig b).
+Proof. exact remove_never_added. Qed.
+Print Assumptions C13_h_remove_never_added.
+
+Theorem C13_h_remove_never_added_scratch : forall trig s ign,
+  forallb wf_op s = true -> forallb (fun o => negb (removes trig o)) s = true ->
+  snd (hexec s (hempty ign)) = None ->
+  hexec (s ++ [HRemove trig [] []]) (hempty ign) = hexec (map (strip_op trig) s) (hempty ign).
+Proof. exact remove_never_added_scratch. Qed.
+Print Assumptions C13_h_remove_never_added_scratch.
+
+Theorem C13_h_unique_event_names : forall s b, forallb wf_op s = true -> uk_scope (hb_scope b) = true ->
+  uk_scope (hb_scope (fst (hexec s b))) = true.
+Proof. exact uk_exec. Qed.
+Print Assumptions C13_h_unique_event_names.
+
+(* REFUTED for source/dest filters: remove_transition(trigger, source=p) matches the filter
+   scope by scope against RELATIVE names, so it also removes transitions of other states.
+   Witness: states s1 and s2{s1, s3}; s2 declares e0: s1 -> s3 (i.e. from s2_s1); no
+   transition has source s1, yet remove_transition('e0', source='s1') removes it.
+   (Replayed on /repo: candidate finding, see the report.) *)
+Theorem C13_h_remove_scope_refuted :
+  ~ In (0, [1]) (abs_sources quirk_machine) /\
+  abs_sources (fst (hrun_op (HRemove 0 [1] []) quirk_machine)) <> abs_sources quirk_machine.
+Proof. exact remove_scope_refuted. Qed.
+Print Assumptions C13_h_remove_scope_refuted.
